@@ -110,6 +110,10 @@ func validateIncludeFileName(s string) error {
 		return errors.New(jerr.IncludeRootErr)
 	}
 
+	if s == "." || s == ".." {
+		return errors.New(jerr.IncludeUpErr)
+	}
+
 	hasForbiddenParts := strings.Contains(s, "/./") ||
 		strings.Contains(s, "./") ||
 		strings.Contains(s, "/.") ||
